@@ -18,6 +18,7 @@ import (
 	"mime/multipart"
 	"net/http"
 	"os"
+	"path"
 	"path/filepath"
 	"regexp"
 	"sort"
@@ -60,8 +61,15 @@ func c02CondClasses(in *c02In) (inm, ims, ifr uint64) {
 }
 
 // c02CondHeaders adds the Range / conditional headers to hdr, built from the probe's validators.
-func c02CondHeaders(in *c02In, hdr map[string]string, probe http.Header) {
+func c02CondHeaders(in *c02In, tree *c02Tree, hdr map[string]string, probe http.Header) {
 	etag, lm := `"none"`, time.Unix(1000000000, 0)
+	// a client can compute the validators of a file it is not shown (modification time and size in
+	// base 36): when the probe carries none, they are those of the regular file the cleaned path names
+	if p, _, ok := c02Split(in.Target); ok {
+		if fi, err := os.Stat(filepath.Join(tree.Dir, filepath.FromSlash(path.Clean("/"+p)))); err == nil && fi.Mode().IsRegular() {
+			etag, lm = c02Etag(fi), fi.ModTime()
+		}
+	}
 	if probe != nil {
 		if e := probe.Get("Etag"); e != "" {
 			etag = e
@@ -116,7 +124,21 @@ type c02DiskFile struct {
 
 // c02DiskFiles: every regular file below the fixture base with the identity it has for a site
 // rooted in tree (1 for a file that is not in that tree).
+var c02DiskCache = map[*c02Tree][]c02DiskFile{}
+
 func c02DiskFiles(tree *c02Tree) []c02DiskFile {
+	if tree != c02Q { // only the sequences' tree changes on disk
+		if l, ok := c02DiskCache[tree]; ok {
+			return l
+		}
+		l := c02DiskFilesRead(tree)
+		c02DiskCache[tree] = l
+		return l
+	}
+	return c02DiskFilesRead(tree)
+}
+
+func c02DiskFilesRead(tree *c02Tree) []c02DiskFile {
 	fx := c02Fixture()
 	ids := map[string]uint64{}
 	for _, n := range tree.nodes() {
@@ -264,8 +286,23 @@ func c02GenRange(r *Rand, thorough bool) []interface{} {
 			targets = append(targets, e.Path+"/")
 		}
 	}
+	// directed: what is hidden (and what has a hidden sibling / index page) under every kind of header
+	for _, t := range append(append([]string{}, c02Hide()...), "/hsib.txt", "/hidx/", "/hidx/index.html", "/a.txt", "/b.txt", "/dir/") {
+		for _, ae := range []string{"", "gzip", "br, zstd, gzip"} {
+			for _, m := range []string{"GET", "HEAD"} {
+				out = append(out,
+					&c02In{Site: "static", Method: m, Target: t, AE: ae, Range: "bytes=0-4"},
+					&c02In{Site: "static", Method: m, Target: t, AE: ae, Range: "bytes=2-3,-2"},
+					&c02In{Site: "static", Method: m, Target: t, AE: ae, INM: "etag"},
+					&c02In{Site: "static", Method: m, Target: t, AE: ae, IMS: "same"},
+					&c02In{Site: "browse", Method: m, Target: t, AE: ae, Range: "bytes=1-", IfRange: "etag"},
+					&c02In{Site: "browse", Method: m, Target: t, AE: ae, Range: "bytes=1-", IfRange: "date"},
+					&c02In{Site: "origin-sub", Method: m, Target: t, AE: ae, Range: "bytes=999-", INM: "other"})
+			}
+		}
+	}
 	rnd := func(max int) string { return strconv.Itoa(r.Intn(max)) }
-	n := 450
+	n := 400
 	if thorough {
 		n = 4500
 	}
